@@ -31,10 +31,10 @@ CHECKS = {
     design="6 (C04), 5",
     technique="deterministic simulation: seeded interleaving of clients/admin on one calculator (whole calls, and steps scheduled inside rule-callback invocations of an evaluation in progress), projection onto shadow replicas"),
  "C03": dict(
-    text="Seeded deterministic simulation of 1..3 session clients and a one-shot client running generated straight-line programs (bindings, re-bindings, self-referential re-bindings, copies, uses inside phrases, failing lines between a binding and its use) over a vetted pool of one- and multi-word names (prefixes of each other, case variants) with values of all seven kinds; programs are delivered in seeded chunks through set_text, interleaved by a seeded scheduler, sessions are dropped and recreated, evaluated again without a new text, given the identical text twice and switched to another language and back while alive, the clock advances between events; lines use one or two variables (a name and a longer name that starts with it in one line). Oracle: executable environment model (value semantics, longest-name precedence, case-insensitive names, failed lines leave the environment untouched) judged line by line. Exploration level. Further simulated behaviour shared by the model-judged checks: in a fifth of the runs another text is evaluated INSIDE a rule-callback invocation of an evaluation in progress (own frozen instant, possibly the other language; one-shot outer steps under a ticking clock, judged by clock atomicity), in a sixth caller-supplied rules that match broadly and always decline are registered (every judged line must be unchanged), in a sixth a rule whose callback always unwinds (caught by the caller; the lost evaluation is skipped, everything afterwards is judged); sessions are evaluated before any text, again without a new text, given identical and earlier texts again, switched to another language and back, formatted through format_result between texts, shadowed by a twin session one text behind; the clock also steps BACK between calls.",
+    text="Seeded deterministic simulation of 1..3 session clients and a one-shot client running generated straight-line programs (bindings, re-bindings, self-referential re-bindings, copies, uses inside phrases, failing lines between a binding and its use) over a vetted pool of one- and multi-word names (prefixes of each other, case variants) with values of all seven kinds; programs are delivered in seeded chunks through set_text, interleaved by a seeded scheduler, sessions are dropped and recreated, evaluated again without a new text, given the identical text twice and switched to another language and back while alive, the clock advances between events; lines use one or two variables (a name and a longer name that starts with it in one line). Oracle: executable environment model (value semantics, longest-name precedence, case-insensitive names, failed lines leave the environment untouched) judged line by line. Exploration level. Further simulated behaviour shared by the model-judged checks: in a fifth of the runs another text is evaluated INSIDE a rule-callback invocation of an evaluation in progress (own frozen instant, possibly the other language; one-shot outer steps under a ticking clock, judged by clock atomicity), in a sixth caller-supplied rules that match broadly and always decline are registered (every judged line must be unchanged), in a sixth a rule whose callback always unwinds (caught by the caller; the lost evaluation is skipped, everything afterwards is judged); sessions are evaluated before any text, again without a new text, given identical and earlier texts again, switched to another language and back, formatted through format_result between texts, shadowed by a twin session one text behind; the clock also steps BACK between calls. Names whose first word the alias table rewrites, names supplying the amount of a unit quantity, Turkish clients, names used before they are bound (and the same line again afterwards).",
     design="6 (C03), 5", technique="deterministic simulation: seeded chunking/interleaving of session programs against an executable environment model; steps scheduled inside rule-callback invocations, declining and unwinding callbacks as injected behaviour"),
  "C06": dict(
-    text="Seeded deterministic simulation of session clients holding money values, one-shot conversions over all rated currencies (every literal spelling, all connectives, +,-,*,/ and money/money) and an administrator updating rates by code, alias and symbol (plus unknown names and currencies that had no rate), biased to land between a binding and its use. Oracles: rate-table model (amount * rate(B)/rate(A), data read from the repository's config.json), return value of update_currency, and 'exactly that currency': conversions not involving the updated currency are bit-identical before and after every update. Exploration level; the thorough tier walks all 992 ordered pairs as part of the workload. Further simulated behaviour shared by the model-judged checks: in a fifth of the runs another text is evaluated INSIDE a rule-callback invocation of an evaluation in progress (own frozen instant, possibly the other language; one-shot outer steps under a ticking clock, judged by clock atomicity), in a sixth caller-supplied rules that match broadly and always decline are registered (every judged line must be unchanged), in a sixth a rule whose callback always unwinds (caught by the caller; the lost evaluation is skipped, everything afterwards is judged); sessions are evaluated before any text, again without a new text, given identical and earlier texts again, switched to another language and back, formatted through format_result between texts, shadowed by a twin session one text behind; the clock also steps BACK between calls. The separator convention changes through both setters in either order.",
+    text="Seeded deterministic simulation of session clients holding money values, one-shot conversions over all rated currencies (every literal spelling, all connectives, +,-,*,/ and money/money) and an administrator updating rates by code, alias and symbol (plus unknown names and currencies that had no rate), biased to land between a binding and its use. Oracles: rate-table model (amount * rate(B)/rate(A), data read from the repository's config.json), return value of update_currency, and 'exactly that currency': conversions not involving the updated currency are bit-identical before and after every update. Exploration level; the thorough tier walks all 992 ordered pairs as part of the workload. Further simulated behaviour shared by the model-judged checks: in a fifth of the runs another text is evaluated INSIDE a rule-callback invocation of an evaluation in progress (own frozen instant, possibly the other language; one-shot outer steps under a ticking clock, judged by clock atomicity), in a sixth caller-supplied rules that match broadly and always decline are registered (every judged line must be unchanged), in a sixth a rule whose callback always unwinds (caught by the caller; the lost evaluation is skipped, everything afterwards is judged); sessions are evaluated before any text, again without a new text, given identical and earlier texts again, switched to another language and back, formatted through format_result between texts, shadowed by a twin session one text behind; the clock also steps BACK between calls. The separator convention changes through both setters in either order. A fifth of the runs build the calculator with SmartCalc::load_from_json from a table in which the dollar does not stand at 1; names are also bound to sums of two currencies (their value depends on the table as it was then).",
     design="6 (C06), 5", technique="deterministic simulation: seeded rate-update histories interleaved with evaluations against a rate-table model; steps scheduled inside rule-callback invocations, declining and unwinding callbacks as injected behaviour"),
  "C09": dict(
     text="Seeded deterministic simulation of date lines (every spelling, en/tr, +/- days/weeks/months/years, differences, today/tomorrow/yesterday, impossible and year-less dates) under a scripted wall clock: boundary-biased instants over 1970..9998 (last/first seconds of days, months, years, leap days), advances between steps, and clock movement INSIDE one-shot evaluations (tick per read, crossing a day/month/year boundary with the crossing position swept over the read indices, backward steps). Oracles: proleptic-Gregorian calendar model (own implementation, self-tested against chrono) with the simulated date as 'today', and clock atomicity: the result under a moving clock must equal the result with the clock frozen at one of the values it returned. Exploration level. Further simulated behaviour shared by the model-judged checks: in a fifth of the runs another text is evaluated INSIDE a rule-callback invocation of an evaluation in progress (own frozen instant, possibly the other language; one-shot outer steps under a ticking clock, judged by clock atomicity), in a sixth caller-supplied rules that match broadly and always decline are registered (every judged line must be unchanged), in a sixth a rule whose callback always unwinds (caught by the caller; the lost evaluation is skipped, everything afterwards is judged); sessions are evaluated before any text, again without a new text, given identical and earlier texts again, switched to another language and back, formatted through format_result between texts, shadowed by a twin session one text behind; the clock also steps BACK between calls. set_date_rule (numeric dates as day/month/year or month/day/year) is part of the configuration history and the calendar model follows it.",
@@ -43,13 +43,13 @@ CHECKS = {
     text="Seeded deterministic simulation of time lines (24 h and am/pm literals, zone abbreviations and GMT offsets, conversions, +/- durations, differences) evaluated one-shot and through sessions that hold time values while an administrator changes the default zone, under a scripted clock and six host time zones with literals placed inside the host zone's skipped/repeated DST hour. Oracles: wall-time model (seconds modulo 86400, offsets in minutes) including the printed form, return value of set_timezone, clock atomicity; the model's answer is independent of instant and host zone, so agreement across them is instant/host independence. Exploration level. Further simulated behaviour shared by the model-judged checks: in a fifth of the runs another text is evaluated INSIDE a rule-callback invocation of an evaluation in progress (own frozen instant, possibly the other language; one-shot outer steps under a ticking clock, judged by clock atomicity), in a sixth caller-supplied rules that match broadly and always decline are registered (every judged line must be unchanged), in a sixth a rule whose callback always unwinds (caught by the caller; the lost evaluation is skipped, everything afterwards is judged); sessions are evaluated before any text, again without a new text, given identical and earlier texts again, switched to another language and back, formatted through format_result between texts, shadowed by a twin session one text behind; the clock also steps BACK between calls. Differences between a time held in a name and a literal are judged when both were read on the same simulated day; user units named like zone abbreviations are registered mid-run.",
     design="6 (C11), 5", technique="deterministic simulation: scripted clock, host-zone DST fault placement and default-zone change histories with a wall-time model; steps scheduled inside rule-callback invocations, declining and unwinding callbacks as injected behaviour"),
  "C14": dict(
-    text="Seeded deterministic simulation of timestamp lines ('N to date', 'N to ZONE', '<date|time|date at time> as unix', inverse pairs held in session variables; N across 1970..9999, negative and beyond 2^31) under a scripted clock across years and default-zone changes between the halves of an inverse pair. Oracles: epoch model (seconds since 1970-01-01T00:00Z from civil date, wall time and offset, own calendar), inverse-ness through variables, digit-exact printing, clock atomicity. The pinned suite's only test of this feature depends on the year it was written in and always fails. Exploration level. Further simulated behaviour shared by the model-judged checks: in a fifth of the runs another text is evaluated INSIDE a rule-callback invocation of an evaluation in progress (own frozen instant, possibly the other language; one-shot outer steps under a ticking clock, judged by clock atomicity), in a sixth caller-supplied rules that match broadly and always decline are registered (every judged line must be unchanged), in a sixth a rule whose callback always unwinds (caught by the caller; the lost evaluation is skipped, everything afterwards is judged); sessions are evaluated before any text, again without a new text, given identical and earlier texts again, switched to another language and back, formatted through format_result between texts, shadowed by a twin session one text behind; the clock also steps BACK between calls. Date variables are asked for their timestamp under later default zones; a third of the instants are an exact start of day in the zone they are shown in.",
+    text="Seeded deterministic simulation of timestamp lines ('N to date', 'N to ZONE', '<date|time|date at time> as unix', inverse pairs held in session variables; N across 1970..9999, negative and beyond 2^31) under a scripted clock across years and default-zone changes between the halves of an inverse pair. Oracles: epoch model (seconds since 1970-01-01T00:00Z from civil date, wall time and offset, own calendar), inverse-ness through variables, digit-exact printing, clock atomicity. The pinned suite's only test of this feature depends on the year it was written in and always fails. Exploration level. Further simulated behaviour shared by the model-judged checks: in a fifth of the runs another text is evaluated INSIDE a rule-callback invocation of an evaluation in progress (own frozen instant, possibly the other language; one-shot outer steps under a ticking clock, judged by clock atomicity), in a sixth caller-supplied rules that match broadly and always decline are registered (every judged line must be unchanged), in a sixth a rule whose callback always unwinds (caught by the caller; the lost evaluation is skipped, everything afterwards is judged); sessions are evaluated before any text, again without a new text, given identical and earlier texts again, switched to another language and back, formatted through format_result between texts, shadowed by a twin session one text behind; the clock also steps BACK between calls. Date variables are asked for their timestamp under later default zones; a third of the instants are an exact start of day in the zone they are shown in. '<date> at <time>' is judged under non-UTC default zones as wall time in that zone (while it stays on the same UTC day).",
     design="6 (C14), 5", technique="deterministic simulation: scripted clock and default-zone change histories with an epoch model; steps scheduled inside rule-callback invocations, declining and unwinding callbacks as injected behaviour"),
  "C15": dict(
-    text="Seeded deterministic simulation of a two-evaluation history per value: evaluate a value line of every printable kind (number, percent, money, duration, time with zone, date, unit quantity, based integer; en and tr), then evaluate its printed form at the same frozen, boundary-biased instant, host zone and configuration (separator/digit/flag/default-zone history through the public setters); the second print must equal the first. Clock-dependent kinds (date: year elision and default year; time: anchoring, host zone) are what the simulator contributes; clock-free kinds ride along and are counted separately. Exploration level. A third of the runs send every value through ONE long-lived session whose language is switched between values; a third register user-defined units while the calculator is already in use and round-trip quantities of those units. Always-declining broad rules and rate updates are part of the configuration history.",
+    text="Seeded deterministic simulation of a two-evaluation history per value: evaluate a value line of every printable kind (number, percent, money, duration, time with zone, date, unit quantity, based integer; en and tr), then evaluate its printed form at the same frozen, boundary-biased instant, host zone and configuration (separator/digit/flag/default-zone history through the public setters); the second print must equal the first. Clock-dependent kinds (date: year elision and default year; time: anchoring, host zone) are what the simulator contributes; clock-free kinds ride along and are counted separately. Exploration level. A third of the runs send every value through ONE long-lived session whose language is switched between values; a third register user-defined units while the calculator is already in use and round-trip quantities of those units. Always-declining broad rules and rate updates are part of the configuration history. Values are also printed by evaluations during which the other language was evaluated inside a rule callback (an echo rule hands the value back); dates reached only by arithmetic (early years), years below 1000, small negative values.",
     design="6 (C15), 5", technique="deterministic simulation: print/read fixed point under simulated clock, host zone and configuration history"),
  "C18": dict(
-    text="Seeded deterministic simulation of registration histories (add_rule / delete_rule / add_dynamic_type / add_dynamic_type_item; valid, duplicate, unknown language/name/family) interleaved with evaluations; rule callbacks are simulator-owned and accept or decline as a pure function of (salt, rule, fields). Oracles: registration model for return values; callback log (first live rule in registration order is called first with fields bound by name, next one after a decline, result token of the accepting rule, transparency when all decline - against a replica without custom rules); O-survivors: at checkpoints a FRESH calculator receives only the surviving registrations in original order and must evaluate a probe set identically; rejected calls change nothing (probe set bit-identical); family chain model (product of declared factors). Exploration level. Extended workload: chain steps that are not proportional (offsets), lines with several spots joined by operators (judged when exactly one live rule accepts each spot; the generator aims lines at decline/accept constellations using the run's decision salt), keywords in another case and with non-ASCII letters; an evaluation that never returns is a violation (watchdog, confirmed alone in a fresh process). Typed fields (DURATION, DATE, family-restricted DYNAMIC_TYPE in another letter case), operands through a variable, and a pattern that contains the clock word 'today' (read at registration: the rule matches lines of that simulated day only); at checkpoints the fresh calculator is given the surviving registrations at their original simulated instants.",
+    text="Seeded deterministic simulation of registration histories (add_rule / delete_rule / add_dynamic_type / add_dynamic_type_item; valid, duplicate, unknown language/name/family) interleaved with evaluations; rule callbacks are simulator-owned and accept or decline as a pure function of (salt, rule, fields). Oracles: registration model for return values; callback log (first live rule in registration order is called first with fields bound by name, next one after a decline, result token of the accepting rule, transparency when all decline - against a replica without custom rules); O-survivors: at checkpoints a FRESH calculator receives only the surviving registrations in original order and must evaluate a probe set identically; rejected calls change nothing (probe set bit-identical); family chain model (product of declared factors). Exploration level. Extended workload: chain steps that are not proportional (offsets), lines with several spots joined by operators (judged when exactly one live rule accepts each spot; the generator aims lines at decline/accept constellations using the run's decision salt), keywords in another case and with non-ASCII letters; an evaluation that never returns is a violation (watchdog, confirmed alone in a fresh process). Typed fields (DURATION, DATE, family-restricted DYNAMIC_TYPE in another letter case), operands through a variable, and a pattern that contains the clock word 'today' (read at registration: the rule matches lines of that simulated day only); at checkpoints the fresh calculator is given the surviving registrations at their original simulated instants. set_date_rule and deletions by names of the library's own rule functions are part of the registration history (refused / without effect on any custom rule); probes are also evaluated inside callback invocations of other probes.",
     design="6 (C18), 5", technique="deterministic simulation: seeded registration/deletion histories with callback decline injection, survivors replica and registration model"),
 }
 
